@@ -8,6 +8,8 @@ package mailbox
 import (
 	"bytes"
 	"encoding/json"
+	"runtime"
+	"strings"
 	"math"
 	"fmt"
 	"os"
@@ -143,7 +145,6 @@ func vAssert(c bool, msg string) {
 
 func vFail(msg string)     { vFailures = append(vFailures, msg) }
 func vReach(label string)  {}
-func vQuiesce()            {}
 // vSynctest is set by the replay driver when the harness runs inside a
 // testing/synctest bubble: virtual time then advances by sleeping.
 var vSynctest bool
@@ -158,10 +159,8 @@ func vAdvance(d time.Duration) {
 	}
 }
 func vF32(name string) float32 { return math.Float32frombits(uint32(vNum(name))) }
-func vLiveGoroutines() int { return 0 }
 func vLiveTimers() int     { return 0 }
 func vLiveTickers() int    { return 0 }
-func vGoroutineDump() string { return "" }
 func vNowNs() int64        { return int64(vClock) }
 func vIsSymbolicRun() bool { return false }
 func vPopcount8(x uint8) int {
@@ -195,3 +194,29 @@ func vMentions(b, secret []byte) bool {
 	}
 	return false
 }
+
+// vLiveGoroutines natively: goroutines running code of the repository (not the
+// harness itself).
+func vLiveGoroutines() int {
+	n := 0
+	for _, g := range vGoroutines() {
+		_ = g
+		n++
+	}
+	return n
+}
+
+func vGoroutines() []string {
+	buf := make([]byte, 1<<22)
+	k := runtime.Stack(buf, true)
+	var out []string
+	for _, g := range strings.Split(string(buf[:k]), "\n\n") {
+		if strings.Contains(g, "lightning-node-connect/") && !strings.Contains(g, "TestVerifReplay") &&
+			!strings.Contains(g, ".VH_") && !strings.Contains(g, "vGoroutines") {
+			out = append(out, g)
+		}
+	}
+	return out
+}
+
+func vGoroutineDump() string { return strings.Join(vGoroutines(), " | ") }
